@@ -422,6 +422,69 @@ def missing_weights(ctx):
                         stat, ign, placeholder, a_nan.tolist(), b_nan.tolist()), desc, cls="C18-%s-value" % stat)
 
 
+def dimensionless(ctx):
+    """a cube WITHOUT dimensions has one cell holding every row: each statistic there must be what the same call gives on a
+    cube with one dimension of a single category (whose cells this check compares with the textbook statistic elsewhere) -
+    for facts of one and several columns, NaN-marked or (values, validity), weights none / scalar / array / (values, validity),
+    both policies, both report formats"""
+    from catii import xcube
+    rng = ctx.rng
+    for rep in range(ctx.n(6)):
+        N = rng.choice([1, 2, 5, 9])
+        K = rng.choice([None, 2])
+        shape = (N,) if K is None else (N, K)
+        fv = np.array([rng.choice([0.5, 1.0, 2.0, 3.5, -1.0, 4.0]) for _ in range(int(np.prod(shape)))], dtype=float).reshape(shape)
+        fok = np.array([rng.random() < 0.85 for _ in range(int(np.prod(shape)))], dtype=bool).reshape(shape)
+        g = np.array([rng.choice([0.5, 1.0, 2.0, 3.0]) for _ in range(N)], dtype=float)
+        wok = np.array([rng.random() < 0.85 for _ in range(N)], dtype=bool)
+        one = np.zeros(N, dtype=np.int64)
+        facts = {"nan": np.where(fok, fv, np.nan), "pair": (fv.copy(), fok.copy())}
+        weights = {"none": None, "scalar": 2.0, "array": g.copy(), "pair": (g.copy(), wok.copy())}
+        stats = ["stddev", "quantile", "quantile0", "quantile1"] + (["min", "max"] if K is None else ["covariance", "corrcoef"])
+        for stat in stats:
+            for fname, fa in facts.items():
+                for wname, wa in weights.items():
+                    if stat in ("min", "max", "corrcoef") and wa is not None:
+                        continue
+                    for ign in (False, True):
+                        desc = {"dimensionless": True, "stat": stat, "facts": fname, "weights": wname, "ignore_missing": ign, "N": N, "K": K,
+                                "fact_vals": fv.tolist(), "fact_valid": fok.tolist(), "w": g.tolist(), "w_valid": wok.tolist()}
+                        ctx.case(desc, nontrivial=N >= 2)
+                        ctx.hit("dimensionless:%s:%s" % (stat.rstrip("01"), wname))
+
+                        def call(cube, r):
+                            if stat.startswith("quantile"):
+                                p = {"quantile": 0.5, "quantile0": 0.0, "quantile1": 1.0}[stat]
+                                return cube.quantile(fa, p, weights=wa, ignore_missing=ign, return_missing_as=r)
+                            if stat in ("min", "max"):
+                                return getattr(cube, stat)(fa, ignore_missing=ign, return_missing_as=r)
+                            if stat == "corrcoef":
+                                return cube.corrcoef(fa, ignore_missing=ign, return_missing_as=r)
+                            return getattr(cube, stat)(fa, weights=wa, ignore_missing=ign, return_missing_as=r)
+                        try:
+                            ref_nan, ref_pair = call2(lambda r: call(xcube([one]), r))
+                        except Exception as e:
+                            ctx.hit("dimensionless_reference_raised:" + type(e).__name__)
+                            continue
+                        try:
+                            got_nan, got_pair = call2(lambda r: call(xcube([]), r))
+                        except Exception as e:
+                            ctx.oracle_fail("%s on a cube without dimensions (facts %s, weights %s, ignore_missing=%s) raised %s: %s - on a "
+                                            "cube with one single-category dimension the same call returns %s" % (
+                                                stat, fname, wname, ign, type(e).__name__, str(e)[:60], str(np.asarray(ref_nan).tolist())[:40]),
+                                            desc, cls="C18-%s-raises" % stat.rstrip("01"))
+                            continue
+                        if not formats_agree(ctx, stat, got_nan, got_pair, desc):
+                            continue
+                        a, b = np.asarray(got_nan, dtype=float).reshape(-1), np.asarray(ref_nan, dtype=float).reshape(-1)
+                        if a.shape != b.shape or not np.array_equal(np.isnan(a), np.isnan(b)):
+                            ctx.oracle_fail("%s without dimensions marks %s missing, with one single-category dimension %s" % (
+                                stat, np.isnan(a).astype(int).tolist(), np.isnan(b).astype(int).tolist()), desc, cls="C18-%s-missing" % stat.rstrip("01"))
+                        elif not all(close(float(x), float(y)) for x, y in zip(a[~np.isnan(a)], b[~np.isnan(b)])):
+                            ctx.oracle_fail("%s without dimensions = %s, with one single-category dimension %s" % (stat, a.tolist(), b.tolist()),
+                                            desc, cls="C18-%s-value" % stat.rstrip("01"))
+
+
 def pooled_statistics(ctx):
     """the same statistics with the cube's worker pool engaged (a dimension with several columns gives several sub-cubes
     filled by different workers through the SAME xfunc object): each cell must still hold the statistic of its own rows.
@@ -519,6 +582,7 @@ def run(ctx):
     pooled_statistics(ctx)
     minmax_trailing(ctx)
     missing_weights(ctx)
+    dimensionless(ctx)
     if ctx.oracle_only:
         return
     from fractions import Fraction
